@@ -50,6 +50,14 @@ var checks = map[string]checkCfg{
 		Rule:        "cases are rapid-generated histories (C02 namespace ops + WRITE/READ/ACCESS/SETATTR with arbitrary 32-bit mode words) over an empty or pre-seeded tree (dir, file, symlink, dangling symlink) under a drawn cache configuration; every attribute-carrying field of every reply is attributed to its object; non-trivial = some object was sighted through >=2 different procedures, or sighted after a successful SETATTR(mode) on a directory; distinct = FNV-64 of the case JSON",
 		Assumptions: append([]string{"directory sizes are not compared (implementation-specific)", "namespace verdicts that differ from the tree model abandon the case here (they are C02's violations)"}, baseAssumptions...),
 		Phases:      []phase{rp("rapid", "^TestC04$", 6, 1500, 16, 10000)}},
+	"C05": {Level: "exploration", Technique: "rapid allocation histories vs path->handle liveness oracle (map level and protocol level)",
+		Rule:        "phase map: rapid histories of Allocate/Release/ReleaseAll/Get on a FileHandleMap with max in {1,2,3,5,10,37} over a path pool 3x max; phase proto: MNT/LOOKUP/CREATE/MKDIR/SYMLINK/READDIRPLUS over a tree of 18+ objects with the handle limit set to {3,5,8,12,37,default} through the shim; non-trivial = an allocation performed while the table is full and the free list is non-empty; distinct = FNV-64 of the case JSON",
+		Assumptions: append([]string{"a READDIRPLUS listing with more entries than the handle limit necessarily returns dead handles; such listings are generated but not judged (DESIGN.md C05)"}, baseAssumptions...),
+		Phases:      []phase{rp("map", "^TestC05Map$", 3, 1500, 8, 20000), rp("proto", "^TestC05Proto$", 3, 800, 8, 8000)}},
+	"C06": {Level: "exploration", Technique: "rapid histories with a handle-hoarding client vs ghost value->path map",
+		Rule:        "same generators as C05; the client re-uses every handle value it was ever given (GETATTR, LOOKUP through it), values are released directly and the export is Unexport()ed and re-mounted; non-trivial = a request used a value after the entry it named was evicted/released (proto) or an eviction happened (map); distinct = FNV-64 of the case JSON",
+		Assumptions: baseAssumptions,
+		Phases:      []phase{rp("map", "^TestC06Map$", 3, 1500, 8, 20000), rp("proto", "^TestC06Proto$", 3, 800, 8, 8000)}},
 	"C02": {Level: "exploration", Technique: "rapid histories vs POSIX tree model + cached-vs-uncached differential",
 		Rule:        "cases are rapid-generated sequential histories of LOOKUP/CREATE/MKDIR/SYMLINK/REMOVE/RMDIR/RENAME/READDIR(PLUS)/GETATTR/READLINK over names {a,b,c} to depth 3, addressed through every handle ever issued (stale ones included); each history runs under the all-off baseline and k cached configurations (quick 3, thorough 6 of 15); non-trivial = a read-type request on a name or directory affected by an earlier successful mutation, executed under a configuration with at least one cache on; distinct = FNV-64 of the case JSON",
 		Assumptions: append([]string{"documented latitude L1-L7 of DESIGN.md §5 C02 (REMOVE of empty dir, UNCHECKED/EXCLUSIVE on existing objects, error code identity not compared against the model, path-bound handles)"}, baseAssumptions...),
